@@ -40,7 +40,7 @@ RULE = (
     "parameters; z3 decides value(assignment) == truth table[assignment] for all assignments and the compiled "
     "integral == model count.  distinct = (descriptor, semiring)."
 )
-BOUNDS = "tensor orders 2-4 with dims <= 3, rank <= 2 (Tucker <= 3 modes); HMM over <= 4 variables (all orderings of 3, a sample of 4), <= 2 latent states, categorical (per-variable category counts) and Gaussian emissions; fully factorised <= 4 variables; logic formulas over <= 4 variables"
+BOUNDS = "quick: tensor orders 2-4 with dims <= 3, rank <= 2 (Tucker <= 3 modes); HMM over <= 4 variables (all orderings of 3, a sample of 4), <= 2 latent states; thorough adds orders up to 5, dims <= 4, rank <= 3, all 24 orderings of 4 variables and 10 of 5, 3 latent states, 130 more formulas over <= 5 variables, categorical (per-variable category counts) and Gaussian emissions; fully factorised <= 4 variables; logic formulas over <= 4 variables"
 OUTSIDE = "binomial inputs; logic circuits in the log-space semirings (exact zeros are clamped to the smallest float: not modelled by the shadow algebra); SDD file parsing; constant formulas (no circuit is built for Top/Bottom); non-deterministic logic graphs (the circuit then counts proofs, not truth); float rounding"
 ASSUMPTIONS = _ops.COMMON_ASSUMPTIONS + [
     "tensor-train factor tensors: V_j[x,a,b] is entry [a,x] of the b-th embedding layer of variable j (the identification the template's comments describe)",
@@ -290,6 +290,48 @@ def _all(tier):
     out.append({"kind": "logic", "n": 3, "tt": [0, 0, 1, 1, 0, 0, 1, 1]})
     out.append({"kind": "logic", "n": 2, "tt": [0, 0, 1, 1]})
     out.append({"kind": "logic", "n": 3, "tt": [0, 1, 0, 1, 1, 1, 1, 1]})
+    if tier != "quick":
+        out.extend(_deep())
+    return out
+
+
+def _deep():
+    """thorough tier: larger shapes / ranks, every ordering of 4 variables, more formulas"""
+    out = []
+    sm = {"activation": "softmax", "initialization": "normal"}
+    for shape in ([4, 2], [2, 4, 3], [3, 3, 2, 2], [2, 2, 2, 2, 2]):
+        for rank in (1, 2, 3):
+            out.append({"kind": "cp", "shape": shape, "rank": rank, "weight": {"activation": "none"}})
+            out.append({"kind": "tt", "shape": shape, "rank": rank})
+    for shape in ([4, 2], [2, 4, 3], [2, 2, 2, 2]):
+        for rank in (2, 3):
+            if rank ** len(shape) <= 27:
+                out.append({"kind": "tucker", "shape": shape, "rank": rank})
+    out.append({"kind": "cp", "shape": [2, 3, 2], "rank": 3, "input": "categorical", "input_params": {"probs": sm}, "weight": sm})
+    cats = [{"num_categories": 2}, {"num_categories": 3}, {"num_categories": 4}, {"num_categories": 2}, {"num_categories": 3}]
+    for order in itertools.permutations(range(4)):
+        out.append({"kind": "hmm", "ordering": list(order), "input": "categorical", "K": 2, "kwargs": cats[:4]})
+    rnd = random.Random(99)
+    for _ in range(10):
+        order = list(range(5))
+        rnd.shuffle(order)
+        out.append({"kind": "hmm", "ordering": order, "input": "categorical", "K": 2, "kwargs": cats})
+    for order in ([2, 0, 3, 1], [3, 1, 0, 2]):
+        out.append({"kind": "hmm", "ordering": order, "input": "categorical", "K": 3, "kwargs": cats[:4]})
+    # Gaussian emissions: three variables (with four the exponent-atom lemmas no longer close the identity)
+    for order in ([1, 2, 0], [2, 1, 0], [0, 2, 1]):
+        out.append({"kind": "hmm", "ordering": order, "input": "gaussian", "K": 2})
+    out.append({"kind": "ff", "n": 5, "input": "categorical", "kwargs": cats})
+    seen = set()
+    for n, cnt in ((3, 30), (4, 60), (5, 40)):
+        k = 0
+        while k < cnt:
+            tt = tuple(rnd.randrange(2) for _ in range(2**n))
+            if all(tt) or not any(tt) or tt in seen:
+                continue
+            seen.add(tt)
+            out.append({"kind": "logic", "n": n, "tt": list(tt)})
+            k += 1
     return out
 
 
